@@ -27,6 +27,11 @@ X_IMMS == {I(3), Big}
 X_CELLVALS == {I(2), P(1, 50000)}
 X_LAYOUTS == {L_sep}
 
+B_Q == {-1, 1}
+B_QX == {-32768, 32767}
+B_T == {-2, 0, 1}
+B_TX == {-32768, -1, 32767}
+
 MemJson(m) == [a \in DOMAIN m |-> m[a]]
 WritesSeq(w) == LET RECURSIVE Sq(_) Sq(S) == IF S = {} THEN <<>> ELSE LET x == CHOOSE x \in S : TRUE IN <<x>> \o Sq(S \ {x}) IN Sq(w)
 MemSeq(m) == WritesSeq({<<a, m[a]>> : a \in DOMAIN m})
